@@ -687,8 +687,21 @@ func checkFlagsSurviveRefill(c *Ctx, p *core.Prog) {
 	n := 0
 	for _, in := range inner.Instrs {
 		phi, ok := in.(*ssa.Phi)
-		if !ok || !isBool(phi.Type()) {
+		if !ok {
 			continue
+		}
+		what := "hyphenation flag "
+		if !isBool(phi.Type()) {
+			// integer state (line number, held-back line breaks) - but not the scan position, which restarts with
+			// every window
+			bt, isB := phi.Type().Underlying().(*types.Basic)
+			if !isB || bt.Kind() != types.Int {
+				continue
+			}
+			if sl, isSl := dec.Common().Args[0].(*ssa.Slice); isSl && sl.Low == ssa.Value(phi) {
+				continue
+			}
+			what = "counter "
 		}
 		n++
 		for i, e := range phi.Edges {
@@ -708,11 +721,11 @@ func checkFlagsSurviveRefill(c *Ctx, p *core.Prog) {
 					}
 				}
 			}
-			c.R.Check(carried, "R06.3", "tokenizeStream: hyphenation flag "+phi.Comment+" keeps its value across buffer refills", p.Pos(phi.Pos()),
-				"enters the rune loop as a loop-carried value of the read loop", "the flag is re-initialised for every 1020-byte window: a hyphen-split word that straddles a refill boundary is not joined and its line is counted wrongly")
+			c.R.Check(carried, "R06.3", "tokenizeStream: "+what+phi.Comment+" keeps its value across buffer refills", p.Pos(phi.Pos()),
+				"enters the rune loop as a loop-carried value of the read loop", "the state is re-initialised for every 1020-byte window: a hyphen-split word that straddles a refill boundary is not joined and its line is counted wrongly")
 		}
 	}
-	c.R.RequireMin("R06.3", "boolean state variables of the rune loop", n, 1)
+	c.R.RequireMin("R06.3", "state variables of the rune loop", n, 2)
 }
 
 // checkPseudoMatchSegregation: R06.2. The slice iterated by the overlap filter must not contain the
